@@ -29,7 +29,8 @@
      burst budget lets a gather retransmit, which chunks have three miss indications) are the events
      themselves; [pr_step] refuses (None) an event the code cannot perform: marking or fast-
      retransmitting an acked or abandoned chunk, retransmitting a chunk whose retransmit flag is not
-     set, fast-retransmitting a chunk already retransmitted. *)
+     set or whose message has been abandoned (fix 3b069d1), fast-retransmitting a chunk already
+     retransmitted. *)
 From Coq Require Import ZArith Bool List.
 From Sctp Require Import Gen RPQ RQ.
 Import ListNotations.
@@ -341,15 +342,27 @@ Definition pr_mark (s : pr_state) (tsn : Z) : option pr_state :=
       else Some (pr_set_core s (pr_put (pr_infl s) tsn (pr_with c (pr_nsent c) (pr_acked c) true (pr_first c))) (pr_msgs s))
   end.
 
-(* getDataPacketsToRetransmit, one chunk: retransmit = false; nSent++; status check *)
+(* getDataPacketsToRetransmit, one chunk: retransmit = false; nSent++; status check.
+   Fix 3b069d1: a marked chunk whose message has been abandoned in the meantime is not retransmitted (its mark
+   is cleared instead: pr_unmark) *)
 Definition pr_retransmit (s : pr_state) (tsn now : Z) : option pr_state :=
   match pr_get (pr_infl s) tsn with
   | None => None
   | Some c =>
-      if negb (pr_rtx c) then None
+      if negb (pr_rtx c) || pr_abandoned s c then None
       else
         let c1 := pr_with c (wrap32 (pr_nsent c + 1)) (pr_acked c) false (pr_first c) in
         Some (pr_set_core s (pr_put (pr_infl s) tsn c1) (pr_check_status s (pr_msgs s) c1 now))
+  end.
+
+(* getDataPacketsToRetransmit visiting a marked chunk of an abandoned message: retransmit = false, nothing sent *)
+Definition pr_unmark (s : pr_state) (tsn : Z) : option pr_state :=
+  match pr_get (pr_infl s) tsn with
+  | None => None
+  | Some c =>
+      if pr_rtx c && pr_abandoned s c
+      then Some (pr_set_core s (pr_put (pr_infl s) tsn (pr_with c (pr_nsent c) (pr_acked c) false (pr_first c))) (pr_msgs s))
+      else None
   end.
 
 (* gatherOutboundFastRetransmissionPackets, one chunk *)
@@ -373,6 +386,7 @@ Inductive pr_ev :=
 | PrMark (tsn : Z)
 | PrT3
 | PrRtx (tsn now : Z)
+| PrUnmark (tsn : Z)
 | PrFrtx (tsn now : Z)
 | PrSack (cum : Z) (gaps : list (Z * Z))
 | PrGather.
@@ -383,6 +397,7 @@ Definition pr_step (s : pr_state) (e : pr_ev) : option (pr_state * list pr_out) 
   | PrMark t => match pr_mark s t with Some s' => Some (s', []) | None => None end
   | PrT3 => Some (pr_t3 s, [])
   | PrRtx t now => match pr_retransmit s t now with Some s' => Some (s', []) | None => None end
+  | PrUnmark t => match pr_unmark s t with Some s' => Some (s', []) | None => None end
   | PrFrtx t now => match pr_fast_retransmit s t now with Some s' => Some (s', []) | None => None end
   | PrSack cum gaps => match pr_sack s cum gaps with Some s' => Some (s', []) | None => None end
   | PrGather => Some (pr_gather_fwd s)
